@@ -564,7 +564,7 @@ def _run_table(ctx, make_exe, shape, max_size, max_width, post_fn, loop_bound=40
     exe = make_exe(inline=[r"RenderTable::rows$", r"RenderTableRow::cells$", r"RenderTableCell::get_size_estimate$",
                            r"SizeEstimate::max$", r"<SizeEstimate as Default>::default$",
                            r"<SubRenderer<D> as Renderer>::width$"],
-                   loop_bound=loop_bound, timeout_ms=20000)
+                   loop_bound=loop_bound, timeout_ms=30000, fallback_timeout_s=300)
     st = State()
     width = exe.fresh("usize", "width")
     raw = exe.fresh("bool", "raw")
@@ -677,7 +677,7 @@ def spec_table_alloc_3(ctx, make_exe):
 
 
 def spec_table_alloc_span(ctx, make_exe):
-    return _run_table(ctx, make_exe, [[2], [1, 1]], 2, 5, _post_table)
+    return _run_table(ctx, make_exe, [[2], [1, 1]], 2, 4, _post_table)
 
 
 def spec_table_alloc_span_only(ctx, make_exe):
@@ -4916,6 +4916,6 @@ ALL = [
          bounds="1 row x 3 columns; cell size <= 2, table width <= 6", assumptions=["as table_alloc_2col"], replay=replay_table_alloc),
     Spec("table_alloc_colspan", ["C06", "C03", "C01"], spec_table_alloc_span, tier="thorough",
          functions=["render_table_tree (whole function)"],
-         bounds="2 rows over 2 columns, first row is one colspan=2 cell; cell size <= 2, table width <= 5",
+         bounds="2 rows over 2 columns, first row is one colspan=2 cell; cell size <= 2, table width <= 4",
          assumptions=["as table_alloc_2col"], replay=replay_table_alloc),
 ]
